@@ -49,6 +49,11 @@ fn plist64(xs: &[(u64, u64)]) -> String {
     s
 }
 
+fn jpairs(xs: &[(u64, u64)]) -> String {
+    let v: Vec<String> = xs.iter().map(|(a, b)| format!("[{},{}]", a, b)).collect();
+    format!("[{}]", v.join(","))
+}
+
 impl K {
     fn coq(&self) -> String {
         match self {
@@ -65,13 +70,13 @@ impl K {
     fn json(&self) -> String {
         match self {
             K::List(l) => format!("{{\"list\":{:?}}}", l),
-            K::Pairs(l) => format!("{{\"pairs\":{:?}}}", l),
+            K::Pairs(l) => format!("{{\"pairs\":{}}}", jpairs(l)),
             K::KNone => "{\"none\":1}".to_string(),
             K::KSome(c) => format!("{{\"some\":{}}}", c.json()),
             K::Bits(n, o) => format!("{{\"len\":{},\"ones\":{:?}}}", n, o),
             K::Int(w, l) => format!("{{\"width\":{},\"items\":{:?}}}", w, l),
             K::Sparse(n, l) => format!("{{\"n\":{},\"items\":{:?}}}", n, l),
-            K::Runs(n, r) => format!("{{\"len\":{},\"runs\":{:?}}}", n, r),
+            K::Runs(n, r) => format!("{{\"len\":{},\"runs\":{}}}", n, jpairs(r)),
         }
     }
 }
@@ -196,6 +201,8 @@ mod doc {
     pub fn buckets(n: u64, w: u64) -> u64 {
         if n == 0 {
             0
+        } else if w >= 64 {
+            1
         } else {
             ((n - 1) >> w) + 1
         }
@@ -206,8 +213,8 @@ mod doc {
         let mut high = vec![false; (m + buckets(n, w)) as usize];
         let mut low = Vec::with_capacity(items.len());
         for (i, x) in items.iter().enumerate() {
-            high[((x >> w) + i as u64) as usize] = true;
-            low.push(x & ((1u64 << w) - 1));
+            high[((if w >= 64 { 0 } else { x >> w }) + i as u64) as usize] = true;
+            low.push(if w >= 64 { *x } else { x & ((1u64 << w) - 1) });
         }
         let mut f = vec![n];
         f.extend(bv(&high));
@@ -1055,6 +1062,29 @@ fn read_sparse(rng: &mut Rng, out: &mut Out, reps: usize) {
     }
 }
 
+// PROBE, not part of the compared cases: low width 64. The document only asks for w >= 1 and an integer vector may be
+// 64 bits wide (one bucket then holds everything); the property quantifies over 1..63 (what the crate's own rule
+// can choose), so the outcome is only recorded in the statistics.
+fn probe_sparse_w64(rng: &mut Rng, out: &mut Out) {
+    for n in [1u64, 64, 1000, 1 << 20, (1u64 << 40) + 5].iter() {
+        let m = std::cmp::min(*n, *rng.pick(&[1u64, 3, 20])) as usize;
+        let items = sorted_distinct(rng, *n, m);
+        let f = doc::sparse(*n, 64, &items);
+        match load_from::<SparseVector>(&f) {
+            Err(_) => out.stat("probe.sparse_low_width_64.load_rejected"),
+            Ok(x) => {
+                out.stat("probe.sparse_low_width_64.load_ok");
+                let mut q = Q::new();
+                let mut qrng = rng.clone();
+                match catch(|| bits_queries(&x, &mut q, &mut qrng, *n, &items, true)) {
+                    Res::Panic(_, _) => out.stat("probe.sparse_low_width_64.queries_panicked"),
+                    Res::Ok(_) => out.stat(if q.wrong == 0 { "probe.sparse_low_width_64.queries_right" } else { "probe.sparse_low_width_64.queries_wrong" }),
+                }
+            }
+        }
+    }
+}
+
 fn o_run_rank(runs: &[(u64, u64)], i: u64) -> usize {
     runs.iter().map(|(s, l)| if i <= *s { 0 } else { std::cmp::min(i - s, *l) }).sum::<u64>() as usize
 }
@@ -1202,7 +1232,7 @@ fn read_wm(rng: &mut Rng, out: &mut Out, reps: usize) {
 // ---------------------------------------------------------------- entry
 
 pub fn run(rng: &mut Rng, out: &mut Out, thorough: bool, _variant: &str) {
-    let reps = if thorough { 5 } else { 1 };
+    let reps = if thorough { 6 } else { 2 };
     write_basic(rng, out, reps);
     write_raw(rng, out, reps);
     write_int(rng, out, reps);
@@ -1213,6 +1243,7 @@ pub fn run(rng: &mut Rng, out: &mut Out, thorough: bool, _variant: &str) {
     read_basic(rng, out, reps);
     read_core(rng, out, reps);
     read_sparse(rng, out, reps);
+    probe_sparse_w64(&mut rng.clone(), out);
     read_rl(rng, out, reps);
     read_wm(rng, out, reps);
 }
